@@ -36,10 +36,11 @@ CHECKS = {
              "score with/without the f64 distance erasure, every candidate list over a 3-bit id space, key, count, exclusion) are "
              "model-checked exhaustively; recorded histories of the real EvictionManager, selections of the real "
              "TrustAwarePeerSelector over embedded ids (families: leading / middle / bytes 15..31 / last byte / spread) and "
-             "DhtCoreEngine join/evict/fail/find/store histories are judged by Trace_Sideline.tla.",
+             "DhtCoreEngine join/evict/fail/find/store histories - storage selection disabled, and enabled with a real EigenTrustEngine as "
+             "the provider (trust of every id logged as order-preserving ranks) - are judged by Trace_Sideline.tla.",
         note="Ranking clauses are judged for trust inside the TrustProvider contract [0,1]; NaN / out-of-range trusts are driven "
-             "for structural clauses and panic-freedom. Engine-level trust-enabled selection (EigenTrustEngine as provider) is "
-             "not driven; disabled mode is (store receipts). Exactness of closest-node answers is C02's.",
+             "for structural clauses and panic-freedom. Engine-level storage selection is driven in both modes (store receipts); the "
+             "engine's query selection (retrieve) needs a transport and is not driven. Exactness of closest-node answers is C02's.",
         technique="TLA+ spec + TLC exhaustive; impl->spec trace validation with TLC as oracle",
         design="6/C16"),
     "C17": dict(
@@ -96,10 +97,12 @@ CHECKS = {
              "four-word, Display/FromStr, serde and bootstrap round trips over all boundary octet/port combinations, all 65 536 ports "
              "of 3 (8) addresses, 1.1 M (22 M) seeded samples, IPv6 of every class, separator/case variants, malformed strings; every "
              "producer's actual string is classified and every reachable consumer is probed with every form; Trace_Address.tla judges "
-             "RoundTrip / Variant / Malformed and Interop over the wiring table with the observed Emits/Accepts.",
-        note="The 2^48 space is sampled (boundaries exhaustively). multiaddr_from_address / dial_candidate are private: their accepted "
-             "forms are taken from reading. add_node is probed through its observable gate behaviour. Trusted: equality projection, "
-             "form classifier/renderer, TLC, Json module.",
+             "RoundTrip / Variant / Malformed and Interop over the wiring table with the observed Emits/Accepts. The wire path is observed "
+             "end to end on real DhtNetworkManagers over the in-memory hub: peer info -> routing table -> find-node reply -> dial_candidate "
+             "(12 / 80 IPv4 and IPv6 addresses, both dial directions), and dial_candidate is probed with all five textual forms.",
+        note="The 2^48 space is sampled (boundaries exhaustively). multiaddr_from_address is private and fed only by the transport: its "
+             "accepted forms are taken from reading and its use is covered by the wire path. add_node is probed through its observable "
+             "gate behaviour. Trusted: equality projection, form classifier/renderer, the hub's dial log, TLC, Json module.",
         technique="TLA+ spec + TLC exhaustive; impl->spec trace validation with TLC as oracle",
         design="6/C19"),
 }
@@ -166,7 +169,8 @@ CHECKS.update({
         note="Timestamp thresholds (60 s / 1 h) are not part of the property: timestamps between 'clearly current' and 'clearly "
              "stale/ahead' admit both readings. After a reload the mark may lie anywhere in [persisted, last] (both readings of "
              "'at most once over the whole life'). The state last = u64::MAX is entered only for the very same (number, hash).",
-        technique="TLA+ spec + TLC exhaustive; impl->spec trace validation with TLC as oracle (violation collection + linearisation search)",
+        technique="TLA+ spec + TLC exhaustive; Apalache inductive invariant of the sequential core (any history length); impl->spec trace "
+                  "validation with TLC as oracle (violation collection + linearisation search)",
         design="6/C12"),
     "C13": dict(
         level="model_checking",
@@ -197,7 +201,8 @@ CHECKS.update({
              "any alignment: 2*max per window length). The only lower bound, KeyIsolation (a request whose buckets have each seen fewer "
              "than min(burst,max) attempts must pass), is time-free and applied to single-threaded segments only. The listener call site "
              "in transport_handle.rs is covered at the check_ip call only. The 100k-key LRU bound is not driven.",
-        technique="TLA+ spec + TLC exhaustive; impl->spec trace validation with TLC as oracle",
+        technique="TLA+ spec + TLC exhaustive; Apalache inductive invariant of one bucket over unbounded time and history length; "
+                  "impl->spec trace validation with TLC as oracle",
         design="6/C14"),
 })
 
@@ -208,10 +213,13 @@ CHECKS["C01"] = dict(
          "pinned tree must yield counterexamples. Real lookups on clusters of 2..12 real DhtNetworkManagers over an in-memory hub "
          "(virtual time, unresponsive and lying peers) are recorded as complete transcripts and judged by Trace_Lookup.tla: result "
          "sorted, distinct, <= K, only answered peers or self, the K closest answered, no closer learned peer left unqueried unless "
-         "the round budget ran out, no self query, no double query, <= 60 requests, exact in a full mesh.",
+         "the round budget ran out, no self query, no double query, <= 60 requests, exact in a full mesh. Spec -> impl: every (graph, target, "
+         "silent set) configuration TLC enumerates for the model over 4 (thorough 5) nodes is built with real managers (DHT keys carry "
+         "the model id), judged by the same acceptor and compared with the model's answer (differences are MODEL-DRIFT).",
     note="Trusted: hub frame log (real wire frames decoded with the library's types), rank projection of XOR distances, app-level "
          "peer id = transport id in the harness. Peers that cannot be dialled are excused (their query attempt is invisible).",
-    technique="TLA+ spec + TLC exhaustive (safety + liveness); transcripts of the real lookup validated by a TLA+ trace acceptor",
+    technique="TLA+ spec + TLC exhaustive (safety + liveness); TLC-enumerated configurations replayed on real clusters (spec -> impl); "
+              "transcripts of the real lookup validated by a TLA+ trace acceptor (impl -> spec)",
     design="6/C01")
 CHECKS["C03"] = dict(
     level="model_checking",
